@@ -4,6 +4,7 @@
    go-codec are tested by the correspondence run, not proved. *)
 From FMP Require Import Base.Bytes Model.Generated Model.Msgpack Model.Frame Model.Reader
      Proofs.MsgpackProofs Proofs.FrameProofs Proofs.ReaderProofs.
+From FMP Require Import Model.Paths Proofs.PathsC05.
 From FMP Require Import Model.CodecCfg Proofs.CodecCfgProofs.
 Open Scope N_scope.
 
@@ -60,6 +61,10 @@ Example ex_big : next_frame (mkEnv [] [] []) 100 [0xce; 0; 1; 0; 0; 9] = (OErr E
 Theorem C05_one_read_attempt_per_frame : cdf_nextframe_once codecfacts_now = true.
 Proof. exact codec_nextframe_once. Qed.
 
+(* on every path through packetizer.NextFrame as it is in the source now the length prefix is decoded first and once, and on the ways out taken for an unreadable, zero, negative or too large prefix nothing of the payload is touched (no ReadByte, no decodeRPC, no drain); the function calls nothing outside the listed vocabulary *)
+Theorem C05_source_prefix_checked_before_payload : nextframe_paths_prefix_first = true.
+Proof. exact paths_nextframe_prefix_first. Qed.
+
 Print Assumptions C05_eof_only_at_boundary.
 Print Assumptions C05_truncated_body_not_eof.
 Print Assumptions C05_bad_length_stops_before_payload.
@@ -69,3 +74,4 @@ Print Assumptions C05_non_integer_prefix_stops.
 Print Assumptions C05_bad_header_is_fatal.
 Print Assumptions C05_chunked_refines_flat.
 Print Assumptions C05_one_read_attempt_per_frame.
+Print Assumptions C05_source_prefix_checked_before_payload.
